@@ -4,6 +4,7 @@ import (
 	"fmt"
 
 	"github.com/ipfs/go-cid"
+	"github.com/ipld/go-car/v2/storage"
 	mh "github.com/multiformats/go-multihash"
 )
 
@@ -168,6 +169,12 @@ func genC04Ops(r *RNG, kind uint64, alpha []Blk, n int) VL {
 			ops = append(ops, VL{VT("finalize")})
 		case x < 97 && isBS(kind):
 			ops = append(ops, VL{VT(pick(r, []string{"finalizero", "close", "discard"}))})
+		case x < 99 && isBS(kind): // stutter steps: DeleteBlock (always an error), HashOnRead (no-op)
+			if r.Bool() {
+				ops = append(ops, VL{VT("delete"), key(b)})
+			} else {
+				ops = append(ops, VL{VT("hashonread"), vbool(r.Bool())})
+			}
 		default:
 			ops = append(ops, VL{VT("get"), key(b)})
 		}
@@ -179,10 +186,22 @@ func optsRowName(o wOpts) string {
 	return fmt.Sprintf("opts:whole=%v,dups=%v,storeid=%v,v1=%v", o.whole, o.dups, o.storeID, o.v1)
 }
 
+// runC04Impl: the store driver with one more observation per step: what storage.IsNotFound says about the
+// error the step returned (0 when it returned none)
+func runC04Impl(work string, kind uint64, o wOpts, roots []cid.Cid, ops VL) Val {
+	lastOutErr = nil
+	x := &storeExtra{afterStep: func(s *storeSession) []Val {
+		nf := lastOutErr != nil && storage.IsNotFound(lastOutErr)
+		lastOutErr = nil
+		return []Val{vbool(nf)}
+	}}
+	return runStoreImplX(work, kind, o, roots, nil, ops, x)
+}
+
 // emitC04 runs one history on the library and records it
 func emitC04(c *Ctx, kind uint64, o wOpts, roots []cid.Cid, ops VL) {
 	in := storeInput(kind, o, roots, nil, ops)
-	obs := runStoreImpl(c.Work, kind, o, roots, nil, ops)
+	obs := runC04Impl(c.Work, kind, o, roots, ops)
 	// non-trivial: at least four steps, a put that was accepted and a query or listing after it
 	okPut, queryAfter := false, false
 	if l, ok := obs.(VL); ok && len(l) == 3 {
@@ -265,7 +284,8 @@ func c04OpSet(kind uint64, alpha []Blk, reduced bool) []Val {
 	}
 	ops = append(ops, VL{VT("roots")}, VL{VT("finalize")})
 	if isBS(kind) {
-		ops = append(ops, VL{VT("keys")}, VL{VT("finalizero")}, VL{VT("close")}, VL{VT("discard")})
+		ops = append(ops, VL{VT("keys")}, VL{VT("finalizero")}, VL{VT("close")}, VL{VT("discard")},
+			VL{VT("delete"), k(alpha[0])}, VL{VT("hashonread"), VN(1)})
 	}
 	return ops
 }
@@ -352,7 +372,7 @@ func c04Example(c *Ctx) {
 func init() {
 	registerReplay("storemap", func(c *Ctx, in Val) Val {
 		l := in.(VL)
-		return runStoreImpl(c.Work, uint64(l[0].(VN)), wOptsFromVal(l[1]), cidsFromVal(l[2]), nil, l[4].(VL))
+		return runC04Impl(c.Work, uint64(l[0].(VN)), wOptsFromVal(l[1]), cidsFromVal(l[2]), l[4].(VL))
 	})
 	register("c04", func(c *Ctx) {
 		// (1) random histories over the collision alphabet x option matrix x front-ends
